@@ -256,6 +256,12 @@ func verifySubprotocol(subprotos []string, resp *http.Response) error {
 		return nil
 	}
 
+	// The header must not appear more than once in a response.
+	// See https://tools.ietf.org/html/rfc6455#section-11.3.4
+	if len(resp.Header.Values("Sec-WebSocket-Protocol")) > 1 {
+		return fmt.Errorf("WebSocket protocol violation: multiple Sec-WebSocket-Protocol headers from server: %q", resp.Header.Values("Sec-WebSocket-Protocol"))
+	}
+
 	for _, sp2 := range subprotos {
 		if strings.EqualFold(sp2, proto) {
 			return nil
